@@ -10,6 +10,7 @@ AltSet(S) == SetDel(SetAdd(S, {124, 126}), {34})       \* the replacement set us
 GopherSpecial == DefaultSpecial @@ (GOPHER :> Some(70))
 OptsOf(name) ==
   CASE name = "special_gopher" -> [DefaultOpts EXCEPT !.special = GopherSpecial]
+    [] name = "special_nofile" -> [DefaultOpts EXCEPT !.special = [sch \in (DOMAIN DefaultSpecial) \ {FILE} |-> DefaultSpecial[sch]]]
     [] name = "set_path"   -> [DefaultOpts EXCEPT !.sPath = AltSet(SetPath)]
     [] name = "set_query"  -> [DefaultOpts EXCEPT !.sQuery = AltSet(SetQuery)]
     [] name = "set_squery" -> [DefaultOpts EXCEPT !.sSQuery = AltSet(SetSpecialQuery)]
